@@ -91,6 +91,48 @@ pub fn sites(thorough: bool) -> Vec<Site> {
             }),
         );
     }
+    // the same limit when most elements emit no bytes at all (the body stays tiny while the count overflows): ten One
+    // elements, the rest empty
+    for builder in [false, true] {
+        add(
+            if builder { "PackageBuilder elements, mostly empty ones (1-byte NumElements)" } else { "Package elements, mostly empty ones (1-byte NumElements)" },
+            255,
+            &[256, 257, 260, 512],
+            false,
+            Box::new(move |n| {
+                struct Nothing;
+                impl Aml for Nothing {
+                    fn to_aml_bytes(&self, _s: &mut dyn acpi_tables::AmlSink) {}
+                }
+                let nothing = Nothing;
+                let pick = |i: u64| -> &dyn Aml { if i % 26 == 0 && i < 260 { &ONE } else { &nothing } };
+                if builder {
+                    let mut p = PackageBuilder::new();
+                    for i in 0..n {
+                        p.add_element(pick(i));
+                    }
+                    ser(&p)
+                } else {
+                    let kids: Vec<&dyn Aml> = (0..n).map(pick).collect();
+                    ser(&Package::new(kids))
+                }
+            }),
+            Box::new(|b, n| {
+                // 12 PkgLength NumElements then the One bytes
+                if b.len() < 3 || b[0] != 0x12 {
+                    return Err(format!("not a package: {}", crate::util::hex(&b[..b.len().min(8)])));
+                }
+                let (pl, w, _) = crate::codecs::pkg_decode(&b[1..]).ok_or("bad PkgLength")?;
+                if pl != b.len() - 1 {
+                    return Err(format!("PkgLength {} but {} bytes follow the opcode", pl, b.len() - 1));
+                }
+                if b[1 + w] as u64 != n {
+                    return Err(format!("NumElements byte {} for {} elements", b[1 + w], n));
+                }
+                Ok(())
+            }),
+        );
+    }
     add(
         "Method argument count (3-bit ArgCount)",
         7,
